@@ -45,6 +45,8 @@ fn main() {
         "C10" => drive(props::c10::C10, rest),
         "C11" => drive(props::c11::C11, rest),
         "C12" => drive(props::c12::C12, rest),
+        "C13" => drive(props::c13::C13, rest),
+        "C14" => drive(props::c14::C14, rest),
         "C18" => drive(props::c18::C18, rest),
         "C20" => drive(props::c20::C20, rest),
         "c20-digest" => props::c20::digest_main(),
